@@ -66,7 +66,7 @@ PROP = {
              "after the watcher's instance was loaded, amount data) signatures over the judged revoked states"),
     "assumptions": ["the revoked transaction is the fully signed commitment the engine recorded from the cheater before it revoked it (heights >= 1)",
                     "victim signs with the fixture MockSigner holding its channel base keys; sweep script and fee estimator are fixtures",
-                    "the cheater's second-level transactions are published unmodified (1-in-1-out) or, on non-taproot anchor channels, several HTLCs of one lock time aggregated into one transaction re-signed by the cheater (input i pays output i, as lnd's sweeper does and as convertToSecondLevelRevoke assumes); other shapes (extra fee inputs, reordered outputs) are not generated",
+                    "the cheater's second-level transactions are published unmodified (1-in-1-out) or, on anchor and taproot channels, several HTLCs of one lock time aggregated into one transaction re-signed by the cheater (input i pays output i, as lnd's sweeper does and as convertToSecondLevelRevoke assumes); other shapes (extra fee inputs, reordered outputs) are not generated",
                     "the chain watcher's channel state instance is the one decoded from the database at the party's last (re)start and is "
                     "not the instance the LightningChannel advances (as in lnd: ChainArbitrator.Start -> FetchAllChannels vs. the link's channel)"],
     "units": [{
